@@ -925,7 +925,7 @@ impl Pool {
         let mut nic = true;
         for s in self.ls.iter() {
             match s {
-                None => hd.push(json!({"k":"D","text":[],"len":0,"cap":0,"last":0,"pc":"none","pid":0,"rc":0,"heap":false})),
+                None => hd.push(json!({"k":"D","text":[],"len":0,"cap":0,"last":0,"pc":"none","pid":0,"rc":0,"heap":false,"rd":""})),
                 Some(s) => {
                     let raw = s.__verif_raw();
                     let last = raw[15];
@@ -953,7 +953,7 @@ impl Pool {
                     }
                     std::mem::forget(o);
                     hd.push(json!({"k":k,"text":s.as_bytes(),"len":s.len(),"cap":s.capacity(),"last":last,
-                        "pc":pc,"pid":pid,"rc":s.__verif_refcount().unwrap_or(0),"heap":s.is_heap_allocated()}));
+                        "pc":pc,"pid":pid,"rc":s.__verif_refcount().unwrap_or(0),"heap":s.is_heap_allocated(),"rd":readers_disagree(s)}));
                 }
             }
         }
@@ -981,6 +981,42 @@ impl Pool {
             Some(s) => json!(s.as_bytes()),
         }).collect())
     }
+}
+
+/// The names of the readers that disagree with `as_bytes()` ("" when all read the one text).
+pub fn readers_disagree(s: &LeanString) -> String {
+    use std::borrow::Borrow;
+    let b = s.as_bytes();
+    let mut bad = vec![];
+    if s.as_str().as_bytes() != b {
+        bad.push("as_str");
+    }
+    if s.len() != b.len() {
+        bad.push("len");
+    }
+    if s.is_empty() != b.is_empty() {
+        bad.push("is_empty");
+    }
+    if (**s).as_bytes() != b {
+        bad.push("deref");
+    }
+    if <LeanString as AsRef<str>>::as_ref(s).as_bytes() != b {
+        bad.push("as_ref_str");
+    }
+    if <LeanString as AsRef<[u8]>>::as_ref(s) != b {
+        bad.push("as_ref_bytes");
+    }
+    if <LeanString as Borrow<str>>::borrow(s).as_bytes() != b {
+        bad.push("borrow");
+    }
+    if String::from(s).as_bytes() != b {
+        bad.push("into_string");
+    }
+    #[cfg(feature = "ls-std")]
+    if <LeanString as AsRef<std::ffi::OsStr>>::as_ref(s).as_encoded_bytes() != b {
+        bad.push("as_ref_osstr");
+    }
+    bad.join(",")
 }
 
 /// Every observation of C17 on a pair: [a == b, a.cmp(b), "all other forms agree with the text"].
